@@ -373,6 +373,12 @@ def step (line : String) : String :=
   | ["c20.written", t, vt] =>
       let vi : Option (Mat Float) := if vt = "-" then none else some (Mat.inverse (matOf (fl vt)))
       "OK " ++ fmtMat (Write.writtenMatrix (matOf (fl t)) vi)
+  | ["c20.paint", pv] =>
+      let p : Option (Option Nat) :=
+        if pv = "unset" then none else if pv = "none" then some none else some (some pv.toNat!)
+      let o : Write.PaintOut Float := Write.writtenPaint p
+      "OK " ++ (match o.text with | some t => t | none => "-") ++ " " ++
+        (match o.opacity with | some x => hexOfFloat x | none => "-")
   | ["c20.dims", vs] =>
       "OK " ++ " ".intercalate ((fl vs).map fun v => match Write.writeDim v with | some x => hexOfFloat x | none => "-")
   | "path.parse" :: parts => fmtParse (parseSeq parts)
